@@ -265,6 +265,40 @@ theorem tzrangebase_is_abstract : Gen.tzrangebase_init = .error .NotImplemented 
 
 theorem fold_is_fold (dt : DtPy.Dt) : Gen.tzinfo_fold dt = .ok (DtPy.foldOf dt) := rfl
 
+/-- the translated `enfold` is the primitive `DtPy.enfold` the translated lookups (tzrangebase.fromutc, tzfile.fromutc,
+    _tzinfo.fromutc, resolve_imaginary) call, for the two legal fold values; any other value is a ValueError; default fold = 1 -/
+theorem enfold_spec (dt : DtPy.Dt) :
+    Gen.enfold dt 0 = .ok (DtPy.enfold dt 0) ∧ Gen.enfold dt 1 = .ok (DtPy.enfold dt 1) ∧ Gen.enfold dt = .ok (DtPy.enfold dt 1) ∧
+    (∀ f, f ≠ 0 → f ≠ 1 → Gen.enfold dt f = .error .ValueError) ∧
+    (∀ f r, Gen.enfold dt f = .ok r → DtPy.foldOf r = f ∧ r.us = dt.us) := by
+  refine ⟨rfl, rfl, rfl, ?_, ?_⟩
+  · intro f h0 h1; simp [Gen.enfold, RfcPy.replaceFold, h0, h1]
+  · intro f r h
+    unfold Gen.enfold RfcPy.replaceFold at h
+    split at h
+    · rename_i hf
+      cases h
+      rcases hf with rfl | rfl <;> simp [DtPy.foldOf]
+    · cases h
+
+/-- on Python 3 the `@tzname_in_python2` decorator is the identity: a decorated `tzname` IS the method as written -/
+theorem tzname_decorator_identity {α : Type} (f : α) : Gen.tznameInPython2 f = f := rfl
+
+/-- **`tzical(fileobj)` then `get`**: constructing from a path or a stream whose text is `text` is parsing that text from an empty
+    `_vtz`; what open/read raise is raised unchanged; and on the object so built every registered zone is returned under its TZID,
+    `keys()` lists exactly the TZIDs, a lone zone is returned without naming it -/
+theorem tzical_load_get (lib : RRuleLib) (isPath : Bool) (text : List Char) :
+    Gen.tzical_init lib ⟨isPath, .ok text⟩ = Gen.tzical_parseRfc lib text ∧
+    (∀ e, Gen.tzical_init lib ⟨isPath, .error e⟩ = .error e) ∧
+    (∀ st, Gen.tzical_init lib ⟨isPath, .ok text⟩ = .ok st →
+      (∀ v ∈ st.vtz, Gen.tzical_get st.vtz (some v.tzid) = .ok (some v)) ∧
+      Gen.tzical_keys st.vtz = .ok (st.vtz.map (·.tzid)) ∧
+      (∀ v, st.vtz = [v] → Gen.tzical_get st.vtz none = .ok (some v))) := by
+  refine ⟨rfl, fun _ => rfl, ?_⟩
+  intro st h
+  have := get_after_parse lib text st h
+  exact ⟨this.1, this.2.1, this.2.2.2⟩
+
 /-! non-vacuity -/
 example : (Gen.tzical_parseRfc okLib (goodText ++ goodText)).map (fun st => st.vtz.length) = .ok 1 := by decide +kernel
 example : Gen.tzical_get [⟨lit "A", []⟩, ⟨lit "B", []⟩] (some (lit "B")) = .ok (some ⟨lit "B", []⟩) := by decide
